@@ -242,6 +242,13 @@ func initConfig(cmd *cobra.Command) error {
 
 	config.Global.HashAlgorithm = strings.ToLower(config.Global.HashAlgorithm)
 
+	// A relative root (GROG_ROOT=.cache, root = ".cache" in grog.toml) means one directory
+	// per workspace, not one per directory grog happens to be started from: the cache and
+	// the workspace lock live below it.
+	if config.Global.Root != "" && !filepath.IsAbs(config.Global.Root) {
+		config.Global.Root = filepath.Join(config.Global.WorkspaceRoot, config.Global.Root)
+	}
+
 	logger.Debugf("Using config file: %s", viper.ConfigFileUsed())
 	logger.Debugf("Running on %s", config.Global.GetPlatform())
 
